@@ -4,6 +4,7 @@ import (
 	"errors"
 	"fmt"
 	"io"
+	"net"
 	"testing"
 
 	gomavlib "github.com/bluenviron/gomavlib/v3"
@@ -19,7 +20,7 @@ import (
 // with the error surfaces as a frame event, then the close event carries that very error (errors.Is finds it).
 func TestC14CustomCause(t *testing.T) {
 	rec := evid.New(t, "C14", "a custom transport whose Read fails after 0..6 frames, the error arriving alone or in the same call as the last frame's bytes (as io.Reader permits), being a plain error, a wrapped one or io.EOF, once or twice in a row (the custom transport is handed out again after a close): every frame surfaces before the close event and errors.Is finds the injected error in EventChannelClose.Error; non-trivial = error delivered together with data; distinct by hash of the parameters")
-	rec.Require("error-with-data", "error-alone", "eof", "second-failure-on-the-same-transport")
+	rec.Require("error-with-data", "error-alone", "eof", "second-failure-on-the-same-transport", "cause-is-use-of-closed-connection")
 	evid.Check(t, rec, evid.N(150, 600), func(t *rapid.T) {
 		drawNodeInit(t)
 		rounds := rapid.IntRange(1, 2).Draw(t, "failures")
@@ -31,7 +32,7 @@ func TestC14CustomCause(t *testing.T) {
 		var rs []round
 		for i := 0; i < rounds; i++ {
 			rs = append(rs, round{frames: rapid.IntRange(0, 6).Draw(t, "frames"), withData: rapid.Bool().Draw(t, "error_with_last_bytes"),
-				kind: rapid.SampledFrom([]string{"plain", "wrapped", "eof"}).Draw(t, "error_kind")})
+				kind: rapid.SampledFrom([]string{"plain", "wrapped", "eof", "closed"}).Draw(t, "error_kind")})
 		}
 		desc := fmt.Sprintf("%+v", rs)
 		p := sim.NewPipe()
@@ -74,6 +75,12 @@ func TestC14CustomCause(t *testing.T) {
 				injected = fmt.Errorf("device layer: %w", base)
 			case "eof":
 				base, injected = io.EOF, io.EOF
+			case "closed":
+				// the application's own connection underneath the custom transport was closed by somebody else:
+				// "use of closed network connection" is a cause like any other
+				base = net.ErrClosed
+				injected = &net.OpError{Op: "read", Net: "tcp", Err: net.ErrClosed}
+				cls = append(cls, "cause-is-use-of-closed-connection")
 			}
 			var all []byte
 			for k := 0; k < rd.frames; k++ {
@@ -131,6 +138,9 @@ func TestC14CustomCause(t *testing.T) {
 			if frames != totalFrames || late {
 				fail("round %d: %d frames had been delivered to the node by the time its Read failed, %d frame events (one after the close event: %v)", ri, totalFrames, frames, late)
 			}
+		}
+		if err := checkBrackets(r.Snapshot()); err != nil {
+			fail("%v", err)
 		}
 		nt := false
 		for _, c := range cls {
